@@ -14,7 +14,7 @@ def to_hist(progs, choice):
     h.append({"op": "Go", "h": 0, "a": 0, "b": 0, "n": 0})
     for t, p in enumerate(progs, start=1):
         for k, op in enumerate(p):
-            h.append({"op": op, "h": t, "a": 100 * t + k + 1 if op == "Set" else 0, "b": 0, "n": 0})
+            h.append({"op": op, "h": t, "a": 100 * t + k + 1 if op in ("Set", "GSet") else 0, "b": 0, "n": 0})
     return h
 
 
